@@ -84,11 +84,17 @@ def gen_script(r, n, cut_offsets=None):
             script.append(("delay-reply",))
         elif k < 0.68:
             script.append(("cut-reply", r.random() if cut_offsets is None else r.choice(cut_offsets)))
-        elif k < 0.74:
+        elif k < 0.72:
             script.append(("rst-before",))
-        elif k < 0.8:
+        elif k < 0.76:
             script.append(("rst-after",))
-        elif k < 0.87:
+        elif k < 0.78:
+            script.append(("fin-before",))
+        elif k < 0.81:
+            script.append(("fin-after",))
+        elif k < 0.83:
+            script.append(("cut-reply-fin", r.choice([0, 0, 1, 6, 39, 40, 41, r.random()])))
+        elif k < 0.89:
             script.append(("stale-reply", r.randrange(8)))
         elif k < 0.94:
             script.append(("dup-reply",))
